@@ -437,7 +437,7 @@ def api_roundtrip_cases(ctx, full, mode):
     return out
 
 
-PASSWORDS = [b"", b"a", b"hackme", b"p\xc3\xa4ssw\xc3\xb6rd\xe2\x9c\x93", b"\x00\xff", b"x" * 65, b"y" * 200]
+PASSWORDS = [b"", b"a", b"hackme", b"p\xc3\xa4ssw\xc3\xb6rd\xe2\x9c\x93", b"\x00\xff", b"x" * 65, b"y" * 200, b"k" * 64, b"k" * 63, b"trail "]
 
 
 class C01(Prop):
